@@ -17,7 +17,7 @@ import (
 )
 
 type c03Op struct {
-	Op  string `json:"op"` // pub ack ackerr cut wait
+	Op  string `json:"op"` // pub ack ackerr reack cut wait
 	QoS byte   `json:"qos,omitempty"`
 	K   int    `json:"k,omitempty"`
 	NB  bool   `json:"nb,omitempty"` // ack without a following barrier
@@ -59,6 +59,8 @@ func genC03(t *rapid.T) c03Scen {
 				op.RM = rapid.SampledFrom(rms).Draw(t, "newrm")
 			}
 			s.Ops = append(s.Ops, op)
+		case k == 18:
+			s.Ops = append(s.Ops, c03Op{Op: "reack"})
 		default:
 			s.Ops = append(s.Ops, c03Op{Op: "wait"})
 		}
@@ -375,6 +377,49 @@ func runC03(s c03Scen, c *ev.Case) *ev.Violation {
 			} else {
 				c.Label("ack_then_cut_without_barrier")
 			}
+		case "reack":
+			// the client repeats the last final acknowledgement (PUBACK / PUBCOMP) it sent on this connection, for a
+			// flow that is complete: the broker must ignore it - in particular it must not open the window further
+			r.mu.Lock()
+			var last *c03Event
+			open := map[uint16]bool{}
+			for k := range r.events {
+				e := r.events[k]
+				if e.Epoch != r.epoch {
+					continue
+				}
+				switch e.Kind {
+				case "rpub":
+					if e.QoS > 0 {
+						open[e.ID] = true
+					}
+				case "rrel":
+					open[e.ID] = true
+				case "spuback", "spubcomp":
+					delete(open, e.ID)
+					cp := e
+					last = &cp
+				case "spubrecerr":
+					delete(open, e.ID)
+				}
+			}
+			r.mu.Unlock()
+			if last == nil || open[last.ID] {
+				c.Count("skipped_ops", 1)
+				continue
+			}
+			ty := mw.PUBACK
+			if last.Kind == "spubcomp" {
+				ty = mw.PUBCOMP
+			}
+			if err := r.send("sreack", &mw.Packet{Type: ty, PacketID: last.ID}); err != nil {
+				return ev.Violf("C03.send", "send failed: %v", err)
+			}
+			c.Label("repeated_final_ack")
+			if err := r.cl.Ping(fixture.DefaultWait); err != nil {
+				return ev.Violf("C03.ping", "no PINGRESP after a repeated acknowledgement: %v", err)
+			}
+			r.settle(25)
 		case "cut":
 			if len(r.ackable()) > 0 {
 				sawCutWithInflight = true
